@@ -4237,6 +4237,19 @@ def judge_qap_run(run, plan):
         yield "glue_incomplete", {"what": "count"}, "%d sub-circuit calls, %d [glue] lines" % (ncalls, nglue)
 
 
+def subqap_under_guard(plan):
+    """True when the plan calls a sub-circuit function inside a region guarded by a secret condition."""
+    def walk(body, depth):
+        for s in body:
+            if s.get("s") == "subqap_call" and depth:
+                return True
+            for k in ("body", "true", "false"):
+                if isinstance(s.get(k), list) and walk(s[k], depth + 1):
+                    return True
+        return False
+    return walk(plan["body"], 0)
+
+
 def mixed_context_fault(plan, items=None):
     """True when the plan calls a sub-circuit function that multiplies by a secret of its caller (template 8)."""
     fns = plan.get("subqaps", [])
@@ -4424,6 +4437,10 @@ class C12(TraceCheck):
             if subqaps and u < 0.4:
                 body.append({"s": "subqap_call", "fn": rng.randrange(nf),
                              "args": [{"ref": rng.randrange(0, 16), "t": "I"} for _ in range(3)], "try": True})
+                if rng.random() < 0.06:
+                    # the call happens inside a region guarded by a secret condition (a boolean default operand or input)
+                    body[-1] = {"s": "guarded", "cond": {"ref": 0, "t": "B"}, "body": [body[-1]], "try": True}
+                    cfg["max_nesting"] = 1
             elif u < 0.5:
                 body.append({"s": "let", "e": {"op": rng.choice(["*", "+", "-"]), "a": {"ref": rng.randrange(16), "t": "I"},
                                                 "b": {"ref": rng.randrange(16), "t": "I"}, "t": "I"}, "try": True})
@@ -4486,10 +4503,14 @@ class C12(TraceCheck):
         viol = []
         site0 = {}
 
+        under_guard = subqap_under_guard(plan)
+
         def add(oracle, site, detail, run_no=1):
             s = dict(site)
             if run_no == 2:
                 s["run"] = 2
+            if under_guard:
+                s["subqap_under_guard"] = True
             if not any(v["oracle"] == oracle and v["site"] == s for v in viol):
                 viol.append({"property": "C12", "oracle": oracle, "site": s, "detail": detail})
         r1 = QapRun(plan, fs, case["seed"], faults=faults).run()
